@@ -18,8 +18,7 @@ from ..dataflow import target_names, single_assign_subst, resolve_expr
 from ..cfg import atomic_facts
 from ..inline import flatten
 
-TECHNIQUE = ('static analysis: exactly-once path counting and control dependence on a hand-built CFG; who-may-write scan of '
-             'all F / INC writers with a positive control')
+TECHNIQUE = ('static analysis: product search over CFG node x truthiness constants x (match seen, scan left early, F / INC entry counts) on the flattened cash-flow primitive; branch-outcome facts for define-if-empty; who-may-write scan of all F / INC writers with a positive control')
 EXPLANATION = (
     'Validates the summary of the booking primitive that the ledger rules (C01, C04, C07) rely on: F receives the term exactly '
     'once on every path, INC receives it iff the income flag survives (lowered only by a matching exclusion of this sector), an '
